@@ -86,8 +86,60 @@ def refused(ctx, bdir, net_or_text, name, what, algs, sanitized_dir=None):
     return bad
 
 
+def k_band_cholesky(ctx):
+    """K: the packed storage CovMat::cholDec leaves (D on the diagonal, the columns of L in the band) against the exact
+    L D L' of the same banded matrix (coq/CholRun.v, judged in coqc); CholProofs.v proves that factorisation correct"""
+    from fractions import Fraction
+    from checks import solver
+    exe = vlib.compile_harness("harness/matvec.cpp", sanitize=True)
+    rng = ctx.rng
+    cases, script = [], []
+    for t in range(60 if ctx.quick else 600):
+        n = rng.randint(1, 7)
+        w = rng.randint(0, n - 1)
+        # banded SPD with small dyadic entries: B B' for a lower band factor B
+        B = [[0] * n for _ in range(n)]
+        for i in range(n):
+            B[i][i] = rng.choice([1, 2, 3])
+            for k in range(1, w + 1):
+                if i - k >= 0:
+                    B[i][i - k] = rng.choice([-2, -1, 0, 1, 1, 2])
+        sc = rng.choice([1, 1, 0.5, 0.25, 4])
+        C = [[sum(B[i][k] * B[j][k] for k in range(n)) * sc for j in range(n)] for i in range(n)]
+        vals = [C[i][j] for i in range(n) for j in range(i, min(n, i + w + 1))]
+        cases.append((n, w, vals))
+        script.append("covldl %d %d %s" % (n, w, " ".join(float(v).hex() for v in vals)))
+        ctx.count(("ldl", n, w, tuple(vals)), nontrivial=w > 0)
+        ctx.hist("chol_dim", n); ctx.hist("chol_band", w)
+    rc, out, err = vlib.sh([exe], inp="\n".join(script) + "\n", timeout=300)
+    lines = [l for l in out.split("\n") if l]
+    if rc != 0 or len(lines) != len(cases):
+        ctx.obligation(False, "K:band-cholesky harness")
+        ctx.violation({"kind": "K:band-cholesky", "rc": rc, "stderr": err[-2000:], "case": cases[len(lines)] if len(lines) < len(cases) else None},
+                      "matvec harness died in CovMat::cholDec (rc %d)" % rc)
+        return
+    terms = []
+    for (n, w, vals), ln in zip(cases, lines):
+        got = [float.fromhex(x) for x in ln.split()[3:]]
+        terms.append("(%d%%nat, %d%%nat, [%s], [%s])" % (n, w, "; ".join(solver.qlit(v) for v in vals), "; ".join(solver.qlit(v) for v in got)))
+    v = "From Coq Require Import List QArith NArith.\nFrom Gama Require Import CholRun.\nImport ListNotations.\nClose Scope Q_scope.\n" \
+        "Definition cases := [\n%s\n].\n" % ";\n".join(terms) + 'Goal True. idtac "@@CHOL". Abort.\nEval vm_compute in bad_chol cases.\n'
+    rc, cout = vlib.coq_run(v, ctx.scratch, name="cases_c10_chol", timeout=900)
+    lst = vlib.parse_coq_list(cout, "@@CHOL")
+    ctx.checker_cmds.append("coqc -Q coq Gama cases_c10_chol.v")
+    ctx.obligation(rc == 0 and lst == [], "K:band-cholesky")
+    if rc != 0 or lst is None:
+        ctx.violation({"kind": "K:band-cholesky", "broken": "cases file did not evaluate", "tail": cout[-600:]}, "cases file failed", no_input=True)
+        return
+    for x in lst[:3]:
+        n, w, vals = cases[int(x.replace("%N", ""))]
+        ctx.violation({"kind": "K:band-cholesky", "dim": n, "band": w, "band_values": vals, "packed_after_cholDec": lines[int(x.replace("%N", ""))]},
+                      "CovMat::cholDec does not leave the L D L' factor of a %d x %d matrix of band %d" % (n, n, w))
+
+
 def run(ctx):
-    ctx.check_proofs(extra_files=["Properties_C10_storage"])
+    ctx.check_proofs(extra_files=["Properties_C10_storage", "CholRun"])
+    k_band_cholesky(ctx)
     bdir = enet.binaries(ctx)
     sdir = enet.binaries(ctx, sanitize=True) if not ctx.quick else None
     rng = ctx.rng
